@@ -120,14 +120,26 @@ theorem containsAny_forbidden (x : Str) :
   | nil => rfl
   | cons a r ih => simp only [List.any_cons, List.all_cons, ih]; cases forbidden.contains a <;> simp
 
-/-- **the model's `qualifies` IS the translated `SubjectQualifiesForCert`** — for all strings. -/
+theorem trimSpace_eq_nil (x : Str) :
+    (strings_TrimSpace x == Go.s "") = !(x.any (fun c => !Lookup.isSpace c)) := by
+  have h := trimSpace_ne_nil x
+  simp only [bne] at h
+  cases hh : (strings_TrimSpace x == Go.s "") <;> simp_all
+
+/-- **the model's `qualifies` IS the translated `SubjectQualifiesForCert`** — for all strings.
+(The proof rewrites the seven tests of the printed definition into the model's and then compares the two
+Boolean combinations case by case, so it does not depend on whether the source spells the conjunction as one
+`&&` chain or as early returns.) -/
 theorem C02_tie_fn_SubjectQualifiesForCert (subj : Str) :
     CM.Gen.Fn.SubjectQualifiesForCert subj = qualifies subj := by
   have hs : Go.s "*" = ['*'] := rfl
   unfold CM.Gen.Fn.SubjectQualifiesForCert qualifies
-  rw [trimSpace_ne_nil, hasPrefix_dot, hasSuffix_dot, hasPrefix_stardot, containsAny_forbidden, hs,
-    strings_Contains_single]
-  simp [bne]
+  simp only [trimSpace_eq_nil, hasPrefix_dot, hasSuffix_dot, hasPrefix_stardot,
+    containsAny_forbidden, hs, strings_Contains_single, bne]
+  cases (subj.any fun c => !Lookup.isSpace c) <;> cases (subj.head? == some '.') <;>
+  cases (subj.getLast? == some '.') <;> cases (subj.contains '*') <;>
+  cases (List.take 2 subj == ['*', '.']) <;> cases (subj == ['*']) <;>
+  cases (subj.all fun c => !forbidden.contains c) <;> simp
 
 /-! ### the handshake model's own copy of the function -/
 
